@@ -39,6 +39,14 @@ def cases(tier, seed):
                             pk = 3
                         out.append(dict(kind='exhaustive', layer=layer, mode=mode, role=role, w=w, lat=lat, hold=hold,
                                         size=unit * pk - 2, seed=seed * 131 + len(out)))
+    # two connection-mode transfers at once from one stack to two different peers (the pass over the sessions serves one while reception
+    # completes the other)
+    for layer in ('j1939-21', 'j1939-22'):
+        unit = 60 if layer == 'j1939-22' else 7
+        for w in (1, 255):
+            for hold in ((0.001,) if tier == 'quick' else (0.0002, 0.001, 0.005)):
+                out.append(dict(kind='exhaustive', layer=layer, mode='cmdt2', role='orig', w=w, lat=(0.0001, 0.001), hold=hold, size=unit * 3 - 2,
+                                seed=seed * 131 + len(out)))
     # connection-mode transfers with a configured minimum DT interval (the burst loop leaves after every packet: another code path)
     for layer in ('j1939-21', 'j1939-22'):
         unit = 60 if layer == 'j1939-22' else 7
@@ -140,18 +148,28 @@ def one_run(case, plan, seed):
         sim.trace_hook = None
         cb = W.ca(B, 0x20, identity_number=2)
         W.listen_ca(cb, 'B')
+        if mode == 'cmdt2':
+            cb2 = W.ca(B, 0x21, identity_number=3)
+            W.listen_ca(cb2, 'B2')
         W.run(0.01)
-        args = (0, 0xD0, 0x20, 6, list(pay)) if mode == 'cmdt' else (0, 0xFE, 0xF6, 6, list(pay))
+        args = (0, 0xD0, 0x20, 6, list(pay)) if mode.startswith('cmdt') else (0, 0xFE, 0xF6, 6, list(pay))
 
         def go():
             for st in counters.values():
                 st['on'] = True
             W.call('send', ca.send_pgn, *args)
+            if mode == 'cmdt2':
+                W.call('send2', ca.send_pgn, 0, 0xD0, 0x21, 6, list(pay))
     sim.at(0.02, go)
     W.run(0.02 + 8.0)
-    exp_pgn = 0xD000 if mode == 'cmdt' else 0xFEF6
+    exp_pgn = 0xD000 if mode.startswith('cmdt') else 0xFEF6
     exact = [d for d in W.deliv['B'] if d[4] == bytes(pay) and M.norm_pgn(d[2]) == exp_pgn and d[3] == 0x10]
     other = [d for d in W.deliv['B'] if d not in exact]
+    if mode == 'cmdt2':
+        ex2 = [d for d in W.deliv['B2'] if d[4] == bytes(pay) and M.norm_pgn(d[2]) == exp_pgn and d[3] == 0x10]
+        other += [d for d in W.deliv['B2'] if d not in ex2]
+        if len(ex2) != 1:
+            exact = exact[:0] if len(ex2) == 0 else exact + ex2        # make the count wrong so that judge() reports it
     res = dict(W=W, exact=len(exact), other=other, n={k: v['n'] for k, v in counters.items()}, lines={k: v['lines'] for k, v in counters.items()},
                info=info, ret=W.calls[0] if W.calls else None)
     return res
@@ -176,7 +194,7 @@ def judge(case, r, viol, what, obs):
         viol.add('corrupt_delivery', '%s: receiver got len=%d pgn=%05X (pre-empted at %s)' % (what, len(d[4]), d[2], locs), **tag)
     for d in ([] if case['mode'].startswith('x_in_') else W.deliv['A']):
         fd = layer == 'j1939-22'
-        okk = d[3] == 0x20 and len(W.deliv['A']) == 1          # the end-of-message acknowledgement notification (form not judged), once
+        okk = d[3] in (0x20, 0x21) and len(W.deliv['A']) <= (2 if case['mode'] == 'cmdt2' else 1)      # end-of-message notification(s), form not judged
         if not okk:
             viol.add('unexpected_delivery', '%s: originator listener got len=%d' % (what, len(d[4])), **tag)
     # a transfer that completes cleanly un-pre-empted must not end with a connection abort from either side under pre-emption
